@@ -248,6 +248,7 @@ func c04Chains(c *ctx) {
 			}
 			n *= sign
 			var r *calendar.Solar
+			try(func() { cur.GetJulianDay() }) // a caller that has already asked the start for its Julian Day
 			p, _ := try(func() {
 				switch op {
 				case "NextDay":
@@ -266,7 +267,9 @@ func c04Chains(c *ctx) {
 				c.emit(obj{"ev": "C04Step", "op": op, "n": n, "p": 1, "res": []int{0, 0, 0, 0, 0, 0}, "k": k})
 				break
 			}
-			c.emit(obj{"ev": "C04Step", "op": op, "n": n, "p": 0, "res": sol(r), "k": k})
+			// the result's own Julian Day, and the start as it reads after the call
+			j, sd, _ := projJD(r.GetJulianDay())
+			c.emit(obj{"ev": "C04Step", "op": op, "n": n, "p": 0, "res": sol(r), "k": k, "jd": []int{j, sd}, "st": sol(cur)})
 			cur = r
 		}
 	}
